@@ -216,7 +216,7 @@ func (h *quietHub) Log(name string, level int, file string, line int, msg string
 		os.Exit(3)
 	}
 }
-func (h *quietHub) Reopen(path string) error          { return nil }
+func (h *quietHub) Reopen(path string) error           { return nil }
 func (h *quietHub) GetLastLog() []byte                 { return nil }
 func (h *quietHub) DumpBuffer(all bool, out io.Writer) {}
 func (h *quietHub) takeErrors() []string {
@@ -251,7 +251,6 @@ func goid() int64 {
 // markDriver records the calling goroutine as the interpreter goroutine.
 func markDriver() { atomic.StoreInt64(&driverGoid, goid()) }
 
-
 func installQuietLog() {
 	loghub.ErrorLogger.Hub = theHub
 	loghub.ErrorLogger.SetLevel(loghub.ERROR)
@@ -270,7 +269,7 @@ type hookCtl struct {
 	rotEnter   int
 	rotExit    int
 	extra      func(name string, args ...interface{}) // check-specific handler, called without the lock
-	events     []string                                // optional event log
+	events     []string                               // optional event log
 	logEvents  bool
 	lastRotate int
 }
